@@ -142,7 +142,11 @@ func sinkWritesRule(r *Run, rule string) {
 			cal := calleeOf(info, c)
 			if cal != nil && cal.Pkg() != nil && cal.Pkg().Path() == "fmt" && strings.HasPrefix(cal.Name(), "Fprint") && len(c.Args) > 0 {
 				if tv, ok := info.Types[c.Args[0]]; ok && namedIs(tv.Type, "strings", "Builder") {
-					r.Bad(rule, f.Name(), "fmt."+cal.Name()+" into a strings.Builder", w.Pos(c.Pos()), "output is written to a strings.Builder outside the sink's Write calls")
+					if family[f.Obj] {
+						r.Ok(rule, f.Name(), "fmt."+cal.Name()+" into the builder", w.Pos(c.Pos()), "inside the sink (what it writes is classified by R2)")
+					} else {
+						r.Bad(rule, f.Name(), "fmt."+cal.Name()+" into a strings.Builder", w.Pos(c.Pos()), "output is written to a strings.Builder outside the sink's Write calls")
+					}
 				}
 			}
 		}
